@@ -74,6 +74,22 @@ def a_shortest_path(conn, a, b):
     return path[::-1]
 
 
+def a_random_simple_path(rng, conn, a, b):
+    """some simple path from a to b along passages, found by a randomised depth-first search: on a maze with cycles usually NOT the path a solver
+    would return (a SolvedMaze stores whatever solution it was given; the plot must draw that one)"""
+    stack, seen = [(a, [a])], {a}
+    while stack:
+        u, path = stack.pop()
+        if u == b:
+            return path
+        nb = [v for v in S.neighbors(conn, u) if v not in seen]
+        for k in rng.permutation(len(nb)):
+            v = nb[int(k)]
+            seen.add(v)
+            stack.append((v, path + [v]))
+    return None
+
+
 def random_cells_path(rng, R, C, n):
     """n cells, mostly a lattice walk (not necessarily through passages), sometimes jumping: the plot must draw what is listed"""
     cells = S.cells((R, C))
@@ -97,7 +113,8 @@ def make_case(rng, kind, R, C, cyclic, ul, node_values, disconnected=False):
         b = comp[int(rng.integers(len(comp)))]
         case["start"], case["end"] = list(a), list(b)
         if kind == "solved":
-            case["solution"] = [list(c) for c in a_shortest_path(conn, a, b)]
+            sol = a_random_simple_path(rng, conn, a, b) if (cyclic or disconnected) and rng.random() < 0.6 else None
+            case["solution"] = [list(c) for c in (sol or a_shortest_path(conn, a, b))]
     elif rng.random() < 0.5:
         case["true_path"] = random_cells_path(rng, R, C, int(rng.integers(1, 6)))
     for _ in range(int(rng.integers(0, 3))):
@@ -182,7 +199,7 @@ def check_case(res, case):
             expected_true = [list(c) for c in case["solution"]]
             got = None if mp.true_path is None else np.asarray(mp.true_path.path).tolist()
             if got != expected_true:
-                res.fail("C20:true-path:solved", "the true path of a plotted SolvedMaze is not its solution", inp, got)
+                res.fail("C20:true-path:solved", "the true path of a plotted SolvedMaze is not its solution (the stored one, shortest or not)", inp, got)
         elif kind == "targeted":
             got = None if mp.true_path is None else [tuple(int(x) for x in c) for c in np.asarray(mp.true_path.path)]
             a, b = tuple(case["start"]), tuple(case["end"])
